@@ -206,6 +206,23 @@ def run_tty(argv, env, timeout=120, which="both"):
             else:
                 bufs[fd] += chunk
         if p.poll() is not None and not r:
+            # the child may have written and exited between the select() above and the poll(): drain what is still in the terminals'
+            # buffers before giving up on them
+            for _ in range(50):
+                r2, _, _ = select.select(list(open_fds), [], [], 0.1)
+                if not r2:
+                    break
+                for fd in r2:
+                    try:
+                        chunk = os.read(fd, 65536)
+                    except OSError:
+                        chunk = b""
+                    if not chunk:
+                        open_fds.discard(fd)
+                    else:
+                        bufs[fd] += chunk
+                if not open_fds:
+                    break
             break
     try:
         p.wait(timeout=10)
